@@ -67,6 +67,11 @@ CHECKS = {
     note="Trusted: numpy linear algebra, Hypothesis generation; tolerances 1e-9/1e-8 (measured worst 2e-13).", ref="4/C01"),
 }
 PENDING = {}
+COMMON = (" Every generated case also carries history and boundary elements where they apply: read-only array arguments, one caller-held object reused "
+          "in place for a previous input, results of earlier calls re-verified after later ones, an earlier call repeated later in the process must "
+          "give the same value, exact special values and values 1e-12..1e-2 away from them, integer / float32 / list-vs-array typing of the same "
+          "values. Sensitivity: all 120 independently seeded changes of this property family (seeded/, 6 per property) and every reverted fix: commit "
+          "make the quick check exit 1; quiet on VERIF_SEED 0-7, 11-13, 21-24 on the unchanged tree.")
 
 def main():
     props = [json.loads(l) for l in open(os.path.join(HERE, "properties.jsonl"))]
@@ -82,7 +87,7 @@ def main():
                 "evidence_file": "evidence/%s.json" % i,
                 "replay_cmd_template": "./run_check.py --property %s --replay {path}" % i,
                 "engine": "xfab-pbt",
-                "level_claimed": {"category": "exploration", "text": c["text"], "design_ref": "DESIGN.md section " + c["ref"]},
+                "level_claimed": {"category": "exploration", "text": c["text"] + COMMON, "design_ref": "DESIGN.md section " + c["ref"] + " and 9"},
                 "level_note": c["note"],
                 "technique": c["technique"],
             })
